@@ -50,12 +50,26 @@ Proof. exact parse_faithful. Qed.
    identifier made of bytes >= 128 and of ASCII characters other than the eight delimiters and the two
    square brackets satisfies the name hypotheses of C05_parse_faithful (ident inside wf, nb inside nobr).
    So the parser theorem covers Result<Ärger, String>: all scanning is byte-wise and every delimiter is
-   ASCII. (The TypeScript-side theorems below are stated over ASCII identifiers, because the
-   specification lexer of Model/Render.v is ASCII-only; at run time non-ASCII names are checked through
-   a consistent renaming to ASCII identifiers - the name must appear verbatim.) *)
+   ASCII. *)
 Theorem C05_utf8_names_admitted : forall n : str,
   n <> [] -> forallb high_or_ident n = true -> ident n /\ Forall nb n.
 Proof. exact utf8_name_ok. Qed.
+
+(* ... and at the TypeScript side: the identifier class of the specification lexers (Model/Render.is_idc,
+   Spec/TsLex.is_id_start) and hence of dom_b admits every byte >= 128, so the site theorems below are
+   statements about the REAL bytes of such names. A name made of bytes >= 128 and ASCII letters, digits,
+   _ and $ that is not reserved and not one of the seven table names is a leaf of the domain, and at
+   every site whose text is a TypeScript type the emitted text lexes and parses to the expected shape
+   (the name verbatim, types.N at return / event sites). Compound types over such leaves are covered
+   by the theorems below as they stand (dom_b is structural); the run-time stream unicode-names applies
+   the oracle to the real bytes (no renaming). *)
+Theorem C05_utf8_names_admitted_ts : forall n : str,
+  n <> [] -> forallb high_or_idc n = true -> reserved n = false -> one_of n table_names = false ->
+  dom_b (RPath n []) = true /\
+  forall s md, site_is_type s md = true -> kf_C05 s md [] (RPath n []) = false ->
+  exists text, emit_type s md [] (RPath n []) = Some text /\
+               observe (site_is_type s md) text = Some (expected s [] (RPath n [])).
+Proof. exact utf8_names_ts. Qed.
 
 (* Parameter, field and channel sites in plain mode and the channel site in Zod mode, every type of
    the documented language at any nesting depth: the printed text, read by a TypeScript type parser
@@ -272,6 +286,21 @@ Example C05_utf8_example :
   parse_type_structure2 (tts ex_utf8) = Some (TRes (TCustom (L "Ärger"))) /\
   emit_type SReturn MNone [] ex_utf8 = Some (L "types.Ärger").
 Proof. vm_compute. repeat split; reflexivity. Qed.
+(* the premises of C05_utf8_names_admitted_ts on a name with 2- and 3-byte characters, and a compound
+   type over it, HashMap<String, Option<Vec<Größe数>>>, inside the premises of C05_sound_full_bounded: the
+   return-site text carries the bytes verbatim and the Zod-mode field schema refers to Größe数Schema *)
+Definition ex_utf8_ts : rty :=
+  RPath (L "HashMap") [RPath (L "String") []; RPath (L "Option") [RPath (L "Vec") [RPath (L "Größe数") []]]].
+Example C05_utf8_ts_premises :
+  L "Größe数" <> [] /\ forallb high_or_idc (L "Größe数") = true /\ List.length (L "Größe数") = 10 /\
+  reserved (L "Größe数") = false /\ one_of (L "Größe数") table_names = false /\
+  kf_C05 SReturn MNone [] (RPath (L "Größe数") []) = false /\
+  emit_type SEvent MZod [] (RPath (L "Größe数") []) = Some (L "types.Größe数") /\
+  dom_b ex_utf8_ts = true /\ C10Zod.dom (sem ex_utf8_ts) = true /\ C10Depth.tsdepth (sem ex_utf8_ts) < 31 /\
+  kf_C05 SParam MNone [] ex_utf8_ts = false /\
+  emit_type SParam MNone [] ex_utf8_ts = Some (L "Record<string, Größe数[] | null>") /\
+  c05_ok SParam MNone [] ex_utf8_ts (L "Record<string, Größe数[] | null>") = true.
+Proof. split; [discriminate|]. vm_compute. repeat split; try reflexivity; repeat constructor. Qed.
 (* Option<Vec<Vec<User>>> at the return site: qualified under two [] and | null *)
 Definition ex_ret : rty := RPath (L "Option") [RPath (L "Vec") [RPath (L "Vec") [RPath (L "User") []]]].
 Example C05_sound_prefix_premises :
@@ -308,6 +337,7 @@ Proof. exact sweep_premises_example. Qed.
 
 Print Assumptions C05_parse_faithful.
 Print Assumptions C05_utf8_names_admitted.
+Print Assumptions C05_utf8_names_admitted_ts.
 Print Assumptions C05_sound_plain.
 Print Assumptions C05_plain_premises.
 Print Assumptions C05_sound_prefix.
